@@ -88,7 +88,33 @@ func c09WheelCases(tier string, rng *rand.Rand) []c09WheelCase {
 
 // c09WheelExtra runs the wheel cases and writes their Coq file
 func c09WheelExtra(out, tier string, rng *rand.Rand, res *Result) {
-	cs := c09WheelCases(tier, rng)
+	c09WheelEval(out, c09WheelCases(tier, rng), res)
+}
+
+// c09WheelReplay re-runs the time wheel case of a replay file (returns false if the replay is a scenario)
+func c09WheelReplay(a Args) bool {
+	b, err := os.ReadFile(a.Replay)
+	if err != nil {
+		return false
+	}
+	var rf struct {
+		Case struct {
+			W *c09WheelCase `json:"time_wheel"`
+		} `json:"case"`
+	}
+	if json.Unmarshal(b, &rf) != nil || rf.Case.W == nil {
+		return false
+	}
+	res := &Result{Property: "C09", Tier: a.Tier, Seed: a.Seed, Stats: map[string]interface{}{}, Failures: []Failure{}, Corr: "corr_C09_time_wheel"}
+	c := *rf.Case.W
+	c.Panicked, c.ElapsedMs, c.Tries = false, 0, 0
+	c09WheelEval(a.Out, []c09WheelCase{c}, res)
+	res.Evaluations = 1
+	writeResult(a, res)
+	return true
+}
+
+func c09WheelEval(out string, cs []c09WheelCase, res *Result) {
 	var wg sync.WaitGroup
 	for i := range cs {
 		wg.Add(1)
